@@ -4,15 +4,17 @@ copies a validated seeded defect from /tmp/seed/<PROP>_work into /verif/seeded/<
 import json, os, shutil, sys
 P, K, caught = sys.argv[1:4]
 note = ' '.join(sys.argv[4:])
-src = f'/tmp/seed/{P}_work'
-dst = f'/verif/seeded/{P}-{K}'
+root = os.environ.get('SEEDROOT', '/tmp/seed')
+off = int(os.environ.get('SEEDOFFSET', '0'))
+src = f'{root}/{P}_work'
+dst = f'/verif/seeded/{P}-{int(K) + off}'
 os.makedirs(dst, exist_ok=True)
 shutil.copy(f'{src}/patch{K}.diff', f'{dst}/patch.diff')
 shutil.copy(f'{src}/demo{K}.py', f'{dst}/demo.py')
 meta = json.load(open(f'{src}/meta{K}.json'))
-res = f'/tmp/seed/results/{P}_{K}.txt'
+res = f'/tmp/seed/results/{P}_{int(K) + off}.txt'
 meta.update({
-    'id': f'{P}-{K}', 'breaks_property': P,
+    'id': f'{P}-{int(K) + off}', 'breaks_property': P,
     'origin': 'independent sub-agent given only the property text and a scratch worktree',
     'confirmed': {
         'demo_on_clean_tree': 'exit 0 (PROPERTY HOLDS)', 'demo_with_patch': 'exit 1 (PROPERTY VIOLATED)',
